@@ -41,7 +41,7 @@ enum {
 /* ------------------------------------------------------------------ configuration */
 enum { KIND_FD, KIND_TIMER, KIND_TASK, KIND_EVENT, KIND_RAW, NKIND };
 static const char *kind_name[NKIND] = { "fd", "timer", "task", "event", "raw" };
-#define MAXFD 8
+#define MAXFD 24
 #define MAXTIMER 48
 #define MAXTASK 6
 #define MAXEV 4
@@ -572,7 +572,14 @@ static void raw_do_register(int i)
 	e->iv->cookie = c; e->iv->handler = raw_cb;
 	int r = iv_event_raw_register(e->iv);
 	vz_log("  raw%d register -> %d", i, r); vz_hash_u(0xd00 + i);
-	if (r) fail_any("raw-register-failed", "iv_event_raw_register returned %d without injected fault", r);
+	if (r) {
+		int injected = 0;
+		for (int k = 0; k < nfaults; k++) if (faults[k].sys == VKS_EVENTFD2 || faults[k].sys == VKS_EVENTFD || faults[k].sys == VKS_PIPE) injected = 1;
+		if (!injected) fail_any("raw-register-failed", "iv_event_raw_register returned %d without injected fault", r);
+		vz_label(L_FAILED_REG); c->live = 0;
+		if (!cfg_alloc_reuse) { free(e->iv); e->iv = NULL; }
+		return;
+	}
 	e->cell = c; e->registered = 1; e->posts_outstanding = 0;
 }
 static void raw_do_unregister(int i)
@@ -755,8 +762,15 @@ static void run_actions_confluent(int kind, int id)
 	case KIND_RAW: if (left <= 0) raw_do_unregister(id); else if (ch_n(2)) { rwos[id].posts_outstanding = 1; iv_event_raw_post(rwos[id].iv); } break;
 	}
 }
+static long marathon_left;
 static void run_actions(int ctx_kind, int ctx_id, int nmax)
 {
+	if (marathon_left > 0 && in_main) {
+		/* very long runs of one simple program: a task that re-registers itself on every round next to a descriptor that stays
+		 * readable (counters that wrap, epochs that overflow, per-iteration leaks) */
+		if (ctx_kind == KIND_TASK) { if (--marathon_left > 1) task_do_register(ctx_id); else { marathon_left = 0; unregister_everything(); } }
+		return;
+	}
 	if (confluent && in_main) { run_actions_confluent(ctx_kind, ctx_id); return; }
 	int n = ch_n(nmax + 1);
 	for (int k = 0; k < n; k++) do_action(ctx_kind, ctx_id);
@@ -964,7 +978,7 @@ static void hook_wait_error(struct vk_wait *w, int err)
 	if (err == EINTR) {
 		if (last_wait_polled) end_of_dispatch_checks();
 		last_wait_polled = 0;   /* no kernel poll happened: not an iteration for the fd rules */
-		if (forced_eintr_now) forced_eintr_now = 0;     /* enumerated fault: no draws, so that the rest of the program is unchanged */
+		if (forced_eintr_now) { forced_eintr_now = 0; if (vz_param_l("eintr_adv", 0)) vk_advance(vz_param_l("eintr_adv", 0)); }     /* enumerated fault: no draws, so that the rest of the program is unchanged */
 		else if (ch_n(2)) vk_advance((int64_t[]){ 1, 1000, 1000000, 50000000 }[ch_n(4)]);
 		last_wait_end = vk_now();   /* time may have passed in an interrupted wait: the clock has to be re-read (not so after ENOSYS/EPERM) */
 	}
@@ -1048,7 +1062,7 @@ void target_run(void)
 		faults[nfaults].sys = a; faults[nfaults].err = b; faults[nfaults].from = c2; faults[nfaults].count = d; nfaults++;
 		fs += used; if (*fs == ',') fs++;
 	  } }
-	cfg_nfd = 1 + ch_n(big ? MAXFD : 5); cfg_ntimer = 1 + ch_n(big ? (profile == 2 ? MAXTIMER : 12) : 6); cfg_ntask = 1 + ch_n(big ? MAXTASK : 3);
+	cfg_nfd = 1 + ch_n(big ? (profile == 1 ? MAXFD : 8) : 5); cfg_ntimer = 1 + ch_n(big ? (profile == 2 ? MAXTIMER : 12) : 6); cfg_ntask = 1 + ch_n(big ? MAXTASK : 3);
 	cfg_nev = 1 + ch_n(big ? MAXEV : 2); cfg_nraw = 1 + ch_n(big ? MAXRAW : 2);
 	budget = 20 + ch_n(big ? 250 : 100);
 	vz_label(L_M0 + cfg_method); vz_count(cfg_method, 1);
@@ -1090,6 +1104,23 @@ void target_run(void)
 	/* a "ticker": a descriptor that stays readable and whose handler (mostly) leaves it so, which wakes
 	 * the loop again and again while the same timer deadline is pending (kernel-timer path) */
 	int ticker = (profile == 2 || profile == 3) ? ch_n(2) : (ch_n(6) == 0);
+	long marathon = vz_param_l("marathon", 0);
+	if (marathon) {
+		budget = 1 << 30; cfg_eintr_pct = 0; ticker = 0;
+		vz_log("marathon: %ld rounds of a self re-registering task beside a readable descriptor", marathon);
+		if (fdos[0].ch_kind == 1) { close(fdos[0].fd); close(fdos[0].peer); int p2[2]; if (pipe(p2) < 0) vz_inconclusive("pipe"); fdos[0].ch_kind = 0; fdos[0].fd = p2[0]; fdos[0].peer = p2[1]; }
+		fd_do_register(0, 0);
+		if (!fdos[0].var[0]) fd_do_set(0, 0, 1);
+		chan_io(0, 0);
+		task_do_register(0);
+		marathon_left = marathon;
+		in_main = 1; poll_calls++; iv_main(); in_main = 0;
+		if (n_registered()) fail_any("early-return", "iv_main returned during the marathon");
+		iv_deinit(); vk_active = 0;
+		vz_count(4, callbacks_total); vz_count(5, iter);
+		vz_label(L_TASK_SELF_REREG); vz_nontrivial();
+		return;
+	}
 	for (rounds = 0; rounds < 2; rounds++) {
 		vz_log("setup (round %d):", rounds);
 		if (profile == 5 && rounds == 0) { raw_do_register(0); if (cfg_nraw > 1 && ch_n(2)) raw_do_register(1); }
